@@ -261,6 +261,51 @@ func buildC13(tier string) *core.Plan {
 		}}
 	spaces = append(spaces, whole)
 
+	// referenced scalars of every kind and awkward content: the substituted text is Go's %v of the value
+	kinds := []any{-3, 0, 2147483648, 1.5, 2.0, 1e21, 1e-7, -0.5, true, false, "", " pad ", "multi\nline", "\n", "tab\t", strings.Repeat("long", 5000), "quo\"te", "{brace}", "x}y", "a.b", "é"}
+	forms := []struct{ pre, mid, post string }{{"", "", ""}, {"a", "", "b"}, {" ", "-", "\n"}}
+	nkd := int64(len(kinds))
+	spaces = append(spaces, core.Space{Name: "referenced-scalar-kinds", N: nkd * int64(len(forms)),
+		Desc: func(i int64) any { return map[string]any{"value": clipAny(kinds[i%nkd]), "form": forms[i/nkd]} },
+		Run: func(c *core.Ctx, i int64) {
+			val, f := kinds[i%nkd], forms[i/nkd]
+			text := fmt.Sprint(val)
+			for _, twice := range []bool{false, true} {
+				tmpl, want := `$"`+f.pre+"{v}"+f.post+`"`, f.pre+text+f.post
+				if twice {
+					tmpl, want = `$"`+f.pre+"{v}"+f.mid+"{n.v}"+f.post+`"`, f.pre+text+f.mid+text+f.post
+				}
+				for _, asKey := range []bool{false, true} {
+					doc := map[string]any{"v": val, "n": map[string]any{"v": val}}
+					wantDoc := map[string]any{"v": val, "n": map[string]any{"v": val}}
+					if asKey {
+						doc["k"] = map[string]any{tmpl: 1}
+						wantDoc["k"] = map[string]any{want: 1}
+					} else {
+						doc["t"] = tmpl
+						wantDoc["t"] = want
+					}
+					c.Eval()
+					c.Trans(2)
+					got, err := c13Eval(doc, "v")
+					wit := fmt.Sprintf("kinds: %s with v=%s key=%v", clipAny(tmpl), clipAny(val), asKey)
+					c.Validated()
+					c.NontrivialSub()
+					if err != nil {
+						c.Outcome("KIND-REJECTED")
+						c.Fail("refInterp", "rejected", wit, errStr(err))
+						return
+					}
+					if !core.Equal(got, []any{wantDoc}) {
+						c.Outcome("KIND-WRONG-TEXT")
+						c.Fail("refInterp", "wrong-text", wit, map[string]any{"got": clipAny(got), "want": clipAny(want)})
+						return
+					}
+					c.Outcome("kind-equal")
+				}
+			}
+		}})
+
 	return &core.Plan{
 		Spaces: spaces,
 		Rule: "every template of k+1 $-free literal segments (9 forms incl. double quotes next to the delimiters, '}', ':', unicode) alternating with k references (12 forms: int/string/nested/float/bool paths, $env:V, unset $env:U, four missing paths incl. paths continuing below a scalar, $repeat) for k = 0..2 in full, k = 3 over the first 2 segments x 7 references (thorough: k = 3 in full, k = 4 over 3 segments x all references), " +
@@ -292,4 +337,13 @@ func c13Unescape(v any) any {
 	default:
 		return v
 	}
+}
+
+// clipAny renders a value for a witness, shortened.
+func clipAny(v any) string {
+	t := core.JSON(v)
+	if len(t) > 120 {
+		return t[:60] + "..." + t[len(t)-40:]
+	}
+	return t
 }
